@@ -46,6 +46,7 @@ def programs(tier):
     ext = {0, -1, 1, 2147483647, -2147483648}     # the extreme pairs always, the rest rotating with the seed
     texts += [c["text"] for i, c in enumerate(rf[0])
               if tier == "thorough" or (c["x"] in ext and c["y"] in ext) or i % 6 == seed() % 6]
+    texts += shared_programs(tier, part=3)
     return list(dict.fromkeys(texts)), [r1, r2, rb[1], re_[1], rk[1], rf[1]]
 
 
